@@ -372,6 +372,27 @@ func (e *Engine) loadContractFile(path string, pkg *types.Package) error {
 			lastClause = si.Clause
 			pendingPred, cur, curMon = nil, nil, nil
 			continue
+		case kw == "callers":
+			// callers Iface.method : f1, f2 -- the interface method is invoked by these functions only (checked mechanically)
+			ci := strings.Index(rest, " : ")
+			dot := strings.Index(rest, ".")
+			if ci < 0 || dot < 0 || dot > ci {
+				return fail(fmt.Errorf("expected: callers Iface.method : f1, f2"))
+			}
+			cd := &callersDecl{Pkg: pkg, Iface: strings.TrimSpace(rest[:dot]), Method: strings.TrimSpace(rest[dot+1 : ci])}
+			list := rest[ci+3:]
+			if at := strings.Index(list, "@"); at >= 0 {
+				cd.Props = strings.Fields(list[at+1:]) // `@ C04 C02`: also reported with these properties' checks
+				list = list[:at]
+			}
+			for _, f := range splitTop(list, ',') {
+				if f = strings.TrimSpace(f); f != "" {
+					cd.Allowed = append(cd.Allowed, f)
+				}
+			}
+			e.callersDecls = append(e.callersDecls, cd)
+			pendingPred, cur, curMon, lastClause = nil, nil, nil, nil
+			continue
 		case kw == "writers":
 			// writers T.field : f1, f2 -- the field is stored to by these functions only (checked mechanically)
 			ci := strings.Index(rest, " : ")
